@@ -46,10 +46,25 @@ StepOut ==
             ELSE IF act.a = "ReaderWalk" THEN WalkChk(act.v) ELSE NoWalk]
 
 GenInit == Init /\ hist = <<>>
+
+\* ---- directed generator for the zone-file route: every valid combination of
+\* two delegations (a. and b.), their name servers (a.a. below the first cut,
+\* b. the second cut's own owner, o. outside) and the A / AAAA glue of each
+\* host; the behaviour is "Build", then all queries
+DelegationRecs ==
+  {Rec(<<la>>, "NS", 1), Rec(<<la>>, "NS", 3), Rec(<<la>>, "DS", 1),
+   Rec(<<lb>>, "NS", 1),
+   Rec(<<la, la>>, "A", 1), Rec(<<la, la>>, "AAAA", 1),
+   Rec(<<lb>>, "A", 1), Rec(<<lb>>, "AAAA", 1)}
+DirectedZones ==
+  {z \in {{Rec(Apex, "SOA", 1)} \cup s : s \in SUBSET DelegationRecs} :
+     ValidZone(z) /\ \E r \in z : TypeOf(r) = "NS"}
+GenInitDirected == (\E z \in DirectedZones : InitWith(z)) /\ hist = <<>>
 \* padding keeps every behaviour alive up to MaxHist steps (one CASE line each)
 Pad == UNCHANGED vars /\ hist' = Append(hist, [op |-> [a |-> "Pad"], chk |-> {}, chk9 |-> {}, walk |-> NoWalk])
 GenNext == Len(hist) < MaxHist /\ ((Next /\ hist' = Append(hist, StepOut')) \/ Pad)
 GenSpec == GenInit /\ [][GenNext]_<<vars, hist>>
+GenSpecDirected == GenInitDirected /\ [][GenNext]_<<vars, hist>>
 
 GenView == <<svars, hist>>
 
